@@ -213,6 +213,23 @@ theorem old_code_refuted :
     (stepOld s0 (.release ["a", "bogus"])).2 = .valueError ∧ tFree s1 = ["a"] ∧ mFree s1 = [] := by
   decide
 
+/-- after `covsync` the theory's covariance has an entry for exactly the pairs of free parameters, and
+    each entry is the minimiser's entry for that pair of NAMES -/
+theorem covsync_entries {C : Type} (free : List Name) (mcov : Name → Name → C) (p1 p2 : Name) (c : C) :
+    ((p1, p2), c) ∈ covsync free mcov ↔ p1 ∈ free ∧ p2 ∈ free ∧ c = mcov p1 p2 := by
+  unfold covsync
+  simp only [List.mem_flatMap, List.mem_map, Prod.mk.injEq]
+  constructor
+  · rintro ⟨a, ha, b, hb, ⟨rfl, rfl⟩, rfl⟩; exact ⟨ha, hb, rfl⟩
+  · rintro ⟨h1, h2, rfl⟩; exact ⟨p1, h1, p2, h2, ⟨rfl, rfl⟩, rfl⟩
+
+/-- indexing the matrix by position in the free list instead (a seeded change) is wrong as soon as the
+    free parameters are not the first ones of the model -/
+theorem covsync_positional_refuted :
+    covsync ["b"] (fun p q => if p == "b" && q == "b" then 7 else 0) = [(("b", "b"), 7)] ∧
+    covsyncPositional ["a", "b"] ["b"] (fun p q => if p == "b" && q == "b" then 7 else 0) = [(("b", "b"), 0)] := by
+  decide
+
 /-- non-vacuity: a history mixing accepted and rejected operations on a concrete state -/
 example : let s0 : St Nat Nat := init ["a", "b", "c"] [("a", 1), ("b", 2), ("c", 3)] [("a", true), ("b", true), ("c", true)] [("a", 7)]
     let s := run s0 [.release ["a", "c"], .release ["b", "bogus"], .limit [("c", 5), ("zz", 1)], .fix ["c"], .limit [("b", 9)]]
